@@ -1,2 +1,2 @@
-/* fid: cond-const-lvalue (fixed 7cf2154); msg: left side of assignment expression is not an lvalue */
+/* fid: cond-const-lvalue (fixed f22c49c); msg: left side of assignment expression is not an lvalue */
 int x, y; void f(void){ (1 ? x : y) = 3; }
